@@ -262,7 +262,16 @@ def fields_of(rec):
 
 
 def shape_of(rec):
-    return "+".join(k + ("=empty" if v == "" else "") for k, v in fields_of(rec) if v is not None) or "empty"
+    return "+".join(k for k, v in fields_of(rec) if v is not None) or "no-field"
+
+
+def roundtrip_mech(plat, rec, back, extra=""):
+    """records with an empty-string field form their own family (whatever the re-parse yields); otherwise record type +
+    template branch (which optional fields are set) + kind of difference"""
+    empty = [k for k, v in fields_of(rec) if v == ""]
+    if empty:
+        return "C19:roundtrip:%s:%s:empty-field=%s" % (plat, type(rec).__name__, "+".join(empty))
+    return "C19:roundtrip:%s:%s:%s%s:%s" % (plat, type(rec).__name__, shape_of(rec), extra, diff_kind(rec, back))
 
 
 def describe(rec):
@@ -273,10 +282,8 @@ def describe(rec):
 
 def diff_kind(a, b):
     """kind of difference between the record a and the re-parsed value b (no values inside)."""
-    if b is None:
-        return "reparse-None"
-    if type(a) is not type(b):
-        return "reparse-" + type(b).__name__
+    if b is None or type(a) is not type(b):
+        return "reparse-not-a-" + type(a).__name__
     return "fields-" + "+".join(k for (k, v), (_, w) in zip(fields_of(a), fields_of(b)) if v != w)
 
 
@@ -408,10 +415,12 @@ class Checker(object):
             good = validator(val)
         except Exception as e:
             self.viol("C19:exception:" + crash_key(ctx, vname, e), {"platform": plat, "fn": vname, "url": val, "kw": {}, "validator_arg": True})
-            return
+            return False
         if good is not True:
             self.viol("C19:validator:%s:%s.%s:route=%s" % (plat, type(rec).__name__, field, route),
                      {"platform": plat, "fn": "parse", "url": u, "kw": kw or {}}, {"record": describe(rec), "validator": vname, "value": val})
+            return False
+        return True
 
 
 def ctx_site_line(e):
@@ -515,7 +524,7 @@ class PlatformChecks(Checker):
         for kw in kws:
             ok, back = self.call(plat, parse_name, parse, cu, True, kw)
             if ok and not (back == rec):
-                self.viol("C19:roundtrip:%s:%s:%s:%s" % (plat, tname, shape, diff_kind(rec, back)), wit,
+                self.viol(roundtrip_mech(plat, rec, back), wit,
                          {"record": describe(rec), "canonical": cu, "reparsed": describe(back), "reparse_kw": kw})
                 return
 
@@ -564,6 +573,7 @@ class PlatformChecks(Checker):
         ok, v = self.call(P, "is_youtube_url", yt.is_youtube_url, u)
         self.expect_bool(P, "is_youtube_url", u, ok, v)
         recs = {}
+        valid = True
         for fcm in (True, False):
             kw = {"fix_common_mistakes": fcm}
             ok, v = self.call(P, "parse_youtube_url", yt.parse_youtube_url, u, truth, kw)
@@ -573,7 +583,8 @@ class PlatformChecks(Checker):
                 if not fcm:
                     ctx.count("config:fix_common_mistakes=False:record")
                 if isinstance(rec, (yt.YoutubeVideo, yt.YoutubeShort)):
-                    self.validate(P, rec, "id", yt.is_youtube_video_id, "is_youtube_video_id", u, yt_route(u, case, rec), kw)
+                    if not self.validate(P, rec, "id", yt.is_youtube_video_id, "is_youtube_video_id", u, yt_route(u, case, rec), kw) and fcm:
+                        valid = False
         if recs[True] != recs[False]:
             ctx.count("config:fix_common_mistakes:differs")
         rec = recs[True]
@@ -591,6 +602,8 @@ class PlatformChecks(Checker):
             tname = type(rec).__name__ if rec is not None else "None"
             if not isinstance(n1, str):
                 self.viol("C19:result-type:normalize_youtube_url:not-str", wit, {"got": repr(n1)})
+            elif not valid:
+                ctx.count("roundtrip-of-record-failing-its-validator-not-judged-twice")
             elif rec is None or safe_values(rec):
                 ok2, n2 = self.call(P, "normalize_youtube_url", yt.normalize_youtube_url, n1, True if rec is not None else truth)
                 ctx.count("idempotence-checked:youtube")
@@ -602,10 +615,10 @@ class PlatformChecks(Checker):
                         kw = {"fix_common_mistakes": fcm}
                         ok3, back = self.call(P, "parse_youtube_url", yt.parse_youtube_url, n1, True, kw)
                         if ok3 and back != rec:
-                            shape = shape_of(rec)
+                            extra = ""
                             if isinstance(rec, yt.YoutubeChannel) and rec.name:
-                                shape += "=" + ("blacklisted" if rec.name in yt.YOUTUBE_CHANNEL_NAME_BLACKLIST else "route-word" if rec.name in YT_ROUTES else "other")
-                            self.viol("C19:roundtrip:youtube:%s:%s:%s%s" % (tname, shape, diff_kind(rec, back), "" if fcm else ":fix_common_mistakes=False"),
+                                extra = "=" + ("blacklisted" if rec.name in yt.YOUTUBE_CHANNEL_NAME_BLACKLIST else "route-word" if rec.name in YT_ROUTES else "other")
+                            self.viol(roundtrip_mech("youtube", rec, back, extra) + ("" if fcm else ":fix_common_mistakes=False"),
                                      wit, {"record": describe(rec), "canonical": n1, "reparsed": describe(back), "reparse_kw": kw})
                             break
             else:
@@ -735,7 +748,12 @@ DIRECTED = [
     C("facebook", FBH, [""], True), C("facebook", FBH, [" "]), C("facebook", FBH, ["l.php"], False, "u=http%3A%2F%2Fa.com%2F&h=AT0"), C("facebook", "https://l.facebook.com", ["l.php"], False, "u=http%3A%2F%2Fa.com%2F"),
     C("facebook", REL, ["some.handle"], False, "rc=p"), C("facebook", REL, ["profile.php"], False, "id=100012241140363"), C("facebook", REL, ["groups"], True), C("facebook", REL, ["some.handle", "posts"]),
     C("facebook", REL, ["some.handle", "posts", "428202057564823"]), C("facebook", "https://fb.me", ["47574"]), C("facebook", "https://www.facebook.co.uk", ["some.handle"]),
+    C("facebook", FBH, ["."]), C("facebook", FBH, ["some.handle", "photos", "", "99"]), C("facebook", FBH, ["123456789", "photos", "a.", "99"]), C("facebook", FBH, ["some.handle", "photos", "a.1234", "", "x"]),
+    C("facebook", FBH, ["groups", "photos", "a.1234", "99"]), C("facebook", FBH, ["x.php", "photos", "a.1234", "99"]), C("facebook", FBH, ["", "some.handle"]), C("facebook", FBH, ["some.handle", "videos", "", "x"]),
+    C("facebook", FBH, ["", "videos", "99"]), C("facebook", FBH, ["some.handle", "posts", "", "x"]), C("facebook", FBH, ["groups", "", "posts", "99"]), C("facebook", FBH, ["groups", "", "x"]),
+    C("facebook", FBH, ["people", "x", "", "y"]), C("facebook", FBH, ["watch"], False, "v="), C("facebook", FBH, ["photo.php"], False, "fbid=1&set=a."), C("facebook", FBH, ["photo.php"], False, "fbid=1&set=g."),
     # youtube
+    C("youtube", YTH, ["user", "", "x"]), C("youtube", YTH, ["channel", "", "x"]), C("youtube", YTH, ["c", "", "x"]), C("youtube", YTH, ["watch"], True), C("youtube", YTH, ["embed"]), C("youtube", YTH, ["."]),
     C("youtube", "https://youtu.be", [VID]), C("youtube", "https://youtu.be", [VID + "%5D"]), C("youtube", "https://youtu.be", ["short"]), C("youtube", "https://youtu.be", ["", VID]),
     C("youtube", YTH, ["watch"], False, "v=" + VID), C("youtube", YTH, ["watch"], False, "v=" + VID + "&list=PL1"), C("youtube", YTH, ["watch"], False, "list=PL1&v=" + VID), C("youtube", YTH, ["watch"]),
     C("youtube", YTH, ["watch"], True, "v=" + VID), C("youtube", YTH, ["watch"], False, "v=" + VID + "xyz"), C("youtube", YTH, ["embed"], True), C("youtube", YTH, ["embed", VID], False, "autoplay=1"),
@@ -768,7 +786,8 @@ DIRECTED = [
     # google
     C("google", GGH, ["spreadsheets", "d", "1Q9sJtAb1BZh", "edit"], False, "", "#gid=0"), C("google", GGH, ["document", "d", "1Q9sJtAb1BZh"]), C("google", GGH, ["presentation", "d", "1Q9sJtAb1BZh"], True),
     C("google", GGH, ["spreadsheets", "d", "e", "2PACX-1vTnz", "pub"], False, "output=csv"), C("google", GGH, ["document", "d", "e", "2PACX-1vTnz", "pub"]), C("google", GGH, ["document", "d", "e", "pub"]),
-    C("google", GGH, ["document", "d", "e"]), C("google", GGH, ["document", "d", "pub"]), C("google", GGH, ["document", "d", "1Q9sJtAb1BZh", "pub"]), C("google", GGH, ["document", "d"]), C("google", GGH, ["document"]),
+    C("google", GGH, ["document", "d", "e"]), C("google", GGH, ["document", "d", "pub"]), C("google", GGH, ["document", "d", "pub", "edit"]), C("google", GGH, ["document", "d", "", "edit"]),
+    C("google", GGH, ["document", "d", "e", "", "pub"]), C("google", GGH, ["document", "d", "e", "pub", "pub"]), C("google", GGH, ["document", "d", "."]), C("google", GGH, ["document", "d", "1Q9sJtAb1BZh", "pub"]), C("google", GGH, ["document", "d"]), C("google", GGH, ["document"]),
     C("google", GGH, ["spreadsheets"], True), C("google", GGH, ["d"]), C("google", GGH, ["e"]), C("google", GGH, ["pub"]), C("google", GGH, ["presentation", "d"], True), C("google", GGH, ["nothing", "d", "e", "2PACX-1vTnz", "pub"]),
     C("google", GGH, ["document", "x", "1Q9sJtAb1BZh"]), C("google", "https://www.google.com", ["url"], False, "sa=t&url=https%3A%2F%2Fa.com%2Fx&usg=A"), C("google", "https://www.google.com", ["url"]),
     C("google", "http://amp.lefigaro.fr", ["x"]), C("google", "http://a-com.cdn.ampproject.org", ["c", "s", "a.com", "x.amp"]), C("google", "http://a.com", ["x", "amp"], True), C("google", "http://a.com", ["x.amp.html"]),
@@ -781,6 +800,7 @@ ARBITRARY = ["", " ", "\t", "\n", "http://", "https://", "//", "/", "#", "?", "h
              "facebook.com:abc/x/posts", "https://user:pw@twitter.com:8080/i", "http://t.me:x/s", "youtu.be:0/", "notfacebook.com/groups/", "facebook.com.evil.org/videos/", "evil.org/facebook.com/posts/",
              "evil.org/?u=twitter.com/i", "http://evil.com/#next=%2Fwatch%3Fv%3Dabc", "http://evil.com/?next=%2Fwatch%3Fv%3D" + VID, "http://evil.com/?a=next%3D%252Fwatch%253Fv%253Dabc", "xfacebook.com/videos/",
              "mytwitter.com/i", "xt.me/s", "t.me.evil.org/s", "docs.google.com.evil.org/document/d", "http://evil.org/docs.google.com/document/d/e/pub", "http://x@docs.google.com@evil.org/document/d/e/x/pub",
+             "twitter.com:[", "t.me:[", "facebook.com:[/posts", "instagram.com:[", "docs.google.com:[", "youtube.com:[", "[", "]", ". ", "..", "/.", "/videos/", "posts/", "/ ",
              "FACEBOOK.COM/GROUPS/", "TWITTER.COM/I", "T.ME/S", "YOUTU.BE/", "https://facebook.com\\groups\\", "facebook.com/groups/\n", " facebook.com/posts/ ", "https://twitter.com/i\t", "fb.me", "fb.me/", "x.com", "t.me",
              "youtu.be", "twitter.com", "instagram.com", "docs.google.com", "facebook.com", "youtube.com", "%", "%zz", "http://%41.com/", "http://a.com/%", "a" * 300, "http://" + "a." * 80 + "com/"]
 
@@ -812,8 +832,6 @@ def random_case(rng, plat):
             h = "user:pw@" + h
         elif r < 0.20:
             h = h + ":8080"
-        elif r < 0.24:
-            h = h + "."
         host = (scheme + "://" if scheme else rng.choice(["", "", "//", "http://", "HTTPS://"])) + h
     segs = [random_segment(rng, spec) for _ in range(rng.choice([0, 1, 1, 2, 2, 3, 3, 4, 5]))]
     items = []
